@@ -373,7 +373,19 @@ def _r11(ctx):
         bad = [d for d in defs if not (isinstance(d, ast.Call) and isinstance(d.func, ast.Attribute) and
                                        is_self_attr(d.func, "transform_to_failure_probability") and d.args and
                                        isinstance(d.args[0], ast.Name) and d.args[0].id == fp[0])]
-        if defs and not bad:
+        # the requested probability reaches the transformation as given: a re-binding of the parameter (clipping it, rounding it)
+        # makes the two directions use different curves outside the band, so they are no longer inverse to each other
+        rebound = [s_ for s_ in walk_function(f.node) if isinstance(s_, (ast.Assign, ast.AugAssign)) and
+                   any(isinstance(t, ast.Name) and t.id == fp[0] for t in (s_.targets if isinstance(s_, ast.Assign) else [s_.target]))
+                   and not (isinstance(s_, ast.Assign) and isinstance(s_.value, ast.Call) and
+                            call_name(s_.value) in ("np.asarray", "float", "np.float64", "np.asanyarray") and
+                            len(s_.value.args) == 1 and isinstance(s_.value.args[0], ast.Name) and s_.value.args[0].id == fp[0])]
+        if rebound:
+            ctx.violated(f, rebound[0], "%s: the requested failure probability is altered before the curve is transformed (%s); the "
+                         "other direction uses it as given, so load(cycles(S, p), p) != S wherever the alteration bites, and the "
+                         "allowable load stops following the probability" % (name, norm_text(rebound[0])[:70]),
+                         text="failure probability altered in " + name)
+        elif defs and not bad:
             ctx.holds(f, bc[0], "%s: parameters come from transform_to_failure_probability(%s) (%d definition(s))" % (name, fp[0], len(defs)))
         else:
             ctx.violated(f, bc[0], "%s: on some path the curve is used as given (%s) instead of being transformed to the "
